@@ -52,6 +52,11 @@ def gen(ctx):
         L = rng.randint(m + 2, 14)
         gap = rng.choice([1, 1, 2])
         yield dict(kind="ap", u=[base + gap * rng.randint(0, 3) for _ in range(L)], m=m, r=rng.choice([0, 0, 1]), digits=0)
+    for _ in range(ctx.n(40, 400)):
+        m = rng.choice([1, 1, 2, 3])
+        L = rng.randint(m + 3, 20)
+        yield dict(kind="ap", u=[rng.randint(0, 4) for _ in range(L)], m=m, r=rng.choice([0, 0, 1, 2]), rfrac=rng.choice([0.5, 0.7, 0.25, 0.999]),
+                   digits=int(rng.random() < 0.5))
     # whole numbers of mixed printed width: runs are compared as numbers, never as concatenated text ((1, 11) vs (11, 1))
     for _ in range(ctx.n(40, 400)):
         m = rng.choice([1, 1, 2, 3])
@@ -93,9 +98,18 @@ def call(c, form):
         seq = buf[::2]
     elif form == "reversed":          # negative stride
         seq = np.array(u[::-1])[::-1]
+    elif form == "f64column":         # whole numbers held in a float array (a column of a float evolution)
+        seq = np.array([[x, 7 - x, 3] for x in u], dtype=np.float64)[:, 0]
+    elif form == "f64strided":
+        buf = np.full(2 * len(u), 99.0)
+        buf[::2] = u
+        seq = buf[::2]
+    elif form == "f32":
+        seq = np.array(u, dtype=np.float32)
     else:                             # a narrow dtype
         seq = np.array(u, dtype=form)
-    return float(cpl.apen(seq, m=c["m"], r=c["r"]))
+    # a filtering level need not be whole: distances of whole numbers are within r + f exactly when they are within r (0 <= f < 1)
+    return float(cpl.apen(seq, m=c["m"], r=c["r"] + c["rfrac"] if c.get("rfrac") else c["r"]))
 
 
 def ref_apen_big(u, m, r):
@@ -154,7 +168,11 @@ def oracle(c):
         va = call(c, "array")
         vs = call(c, "str") if c["digits"] else vl
         extra = {}
-        for form in ("column", "strided", "reversed", "int32", "int16"):
+        for form in ("column", "strided", "reversed", "int32", "int16", "f64column", "f64strided", "f32"):
+            if form == "f32" and not all(abs(x) < 2 ** 24 for x in c["u"]):
+                continue
+            if form.startswith("f64") and not all(abs(x) < 2 ** 53 for x in c["u"]):
+                continue
             if form == "int16" and not all(-30000 <= x <= 30000 for x in c["u"]):
                 continue
             if form == "int32" and not all(-2 ** 31 < x < 2 ** 31 for x in c["u"]):
